@@ -33,7 +33,7 @@ def make_input(bodies, starts, long_mask, omit_counts, fam):
             so_s, nm_hdr = so, nm
         a = f"-{so_s},{nm_hdr}" if not (omit_counts and nm_hdr == 1) else f"-{so_s}"
         b = f"+{sn},{np_}" if not (omit_counts and np_ == 1) else f"+{sn}"
-        lines.append(f"@@ {a} {b} @@ fragZ{hi + 1}Z")
+        lines.append(f"@@ {a} {b} @@ fragZ{hi + 1}Z" + ["", " = -1;", " x +5,2 y", " int a[-3]; /* +12 */"][(hi + len(body)) % 4])
         ks = []
         for c in body:
             k += 1
